@@ -65,6 +65,18 @@ def run_cfgs(tier, seed):
               what="user-supplied pool of 2, parallelise_prior"),
          dict(i, name="ins_otherseed", seed=seed + 1, group=None, what="a different seed (sensitivity of the digest)")],
     ]
+    # boundary values of the seed range [0, 2**32 - 1]: same process twice / another process with a pool
+    for tag, sd in (("seed0", 0), ("seedmax", 2 ** 32 - 1)):
+        sb = {"sampler": "std", "seed": sd, "max_iteration": 60}
+        ib = {"sampler": "ins", "seed": sd, "max_iteration": 2}
+        children += [
+            [dict(sb, name=f"std_{tag}_ref", repeat=2, group=f"std_{tag}", what=f"seed {sd}: same process twice"),
+             dict(ib, name=f"ins_{tag}_other_process", n_pool=2, group=f"ins_{tag}", what=f"seed {sd}: a different process, n_pool=2")],
+            # the standard run comes first: an importance run registers extra live-point fields (logW, logQ, logU)
+            # process-wide, which changes the dtype of every later standard run in that process
+            [dict(sb, name=f"std_{tag}_other_process", n_pool=2, group=f"std_{tag}", what=f"seed {sd}: a different process, n_pool=2"),
+             dict(ib, name=f"ins_{tag}_ref", repeat=2, group=f"ins_{tag}", what=f"seed {sd}: same process twice")],
+        ]
     if not q:
         s2 = {"sampler": "std", "seed": seed + 10, "nlive": 100, "max_iteration": 300}
         i2 = {"sampler": "ins", "seed": seed + 10, "nlive": 80, "max_iteration": 5}
@@ -146,7 +158,7 @@ def run(chk):
     with concurrent.futures.ThreadPoolExecutor(max_workers=8) as ex:
         futs = [ex.submit(child_json, chk, {"mode": "runs", "root": f"{root}_{k}", "runs": cfgs}, 1500, str(101 + 17 * k))
                 for k, cfgs in enumerate(children)]
-        fseed = ex.submit(child_json, chk, {"mode": "seedfn", "seeds": [seed, seed, seed + 1, None]}, 300)
+        fseed = ex.submit(child_json, chk, {"mode": "seedfn", "seeds": [seed, seed, seed + 1, None, 0, 0, 2 ** 32 - 1, 2 ** 32 - 1]}, 300)
         for k, f in enumerate(futs):
             res, err = f.result()
             chk.oblige(f"real runs, child {k} ({', '.join(c['name'] for c in children[k])}) ran", "harness", res is not None, err)
@@ -168,6 +180,11 @@ def run(chk):
                     continue
                 chk.evaluations += 1
                 chk.count("runs:" + c["sampler"])
+                if rep.get("recorded_seed") != c["seed"]:
+                    chk.fail(f"C14:seed-not-recorded:{c['sampler']}:seed={c['seed']}",
+                             f"{c['sampler']} sampler: seed {c['seed']} was requested, the sampler records and uses "
+                             f"seed {rep.get('recorded_seed')}", {"reference": c, "run": c, "observed": rep,
+                                                                   "requested_seed": c["seed"]})
                 if c["group"] is None:
                     continue
                 groups.setdefault(c["group"], []).append((c, k, rep))
@@ -225,7 +242,13 @@ def run(chk):
         s = sres["seedfn"]
         okseed = s[0]["np"] == s[1]["np"] and s[0]["torch"] == s[1]["torch"] and s[0]["np"] != s[2]["np"] \
             and s[0]["torch"] != s[2]["torch"] and s[0]["stored"] == seed and isinstance(s[3]["stored"], int)
-        chk.oracle_validations += 4
+        chk.oracle_validations += len(s)
+        for a, b in ((s[4], s[5]), (s[6], s[7])):
+            if a["stored"] != a["seed"] or b["stored"] != b["seed"] or a["np"] != b["np"] or a["torch"] != b["torch"]:
+                chk.fail(f"C14:configure_random_seed:seed={a['seed']}",
+                         f"configure_random_seed({a['seed']}) stores seed {a['stored']} / {b['stored']} and two calls leave "
+                         f"the generators in {'the same' if a['np'] == b['np'] else 'different'} states",
+                         {"seedfn": [a, b], "requested_seed": a["seed"]})
         if not okseed:
             chk.fail("C14:configure_random_seed", "configure_random_seed does not put numpy and torch into a state that is a "
                      "function of the seed", {"seedfn": s})
@@ -268,11 +291,31 @@ def replay(data):
         diff = [p for p in PARTS if a["parts"][p] != b["parts"][p]]
         print(json.dumps({"reference": {k: v for k, v in a.items() if k != "parts"}, "run": {k: v for k, v in b.items() if k != "parts"},
                           "differing": diff}))
+        bad_seed = [x for x in (a, b) if x.get("recorded_seed") != x.get("requested_seed")]
+        if bad_seed:
+            print(f"VIOLATION property={PID} replay=(replayed) seed {bad_seed[0]['requested_seed']} requested, "
+                  f"seed {bad_seed[0]['recorded_seed']} recorded and used")
+            rc = 1
         if diff:
             print(f"VIOLATION property={PID} replay=(replayed) {rp['run'].get('what', '')} changes {', '.join(diff)}")
             rc = 1
+        if not rc:
+            print("replay: the two runs agree and record the requested seed")
+    elif "seedfn" in rp:
+        sd = rp["requested_seed"]
+        r = subprocess.run(["timeout", "300", common.PY, os.path.join(common.VERIF, "harness", "c14_child.py")],
+                           input=json.dumps({"mode": "seedfn", "seeds": [sd, sd]}), capture_output=True, text=True,
+                           env=common.child_env(), cwd=chk.build)
+        if r.returncode != 0:
+            print(r.stderr[-800:])
+            return 1
+        a, b = json.loads(r.stdout)["seedfn"]
+        print(json.dumps([a, b]))
+        if a["stored"] != sd or b["stored"] != sd or a["np"] != b["np"] or a["torch"] != b["torch"]:
+            print(f"VIOLATION property={PID} replay=(replayed) configure_random_seed({sd}) stores {a['stored']} / {b['stored']}")
+            rc = 1
         else:
-            print("replay: the two runs agree")
+            print("replay: configure_random_seed is a function of the requested seed")
     else:
         print("nothing to replay; re-run ./check C14")
     import shutil
